@@ -177,3 +177,20 @@ PROPS["C17"] = {
         {"engine": "unit", "test": "TestC17ProbeLevelsKey", "rapid": False, "probe": True, "quick": {"shards": 1, "timeout": 60}, "thorough": {"shards": 1, "timeout": 60}},
     ],
 }
+
+_NETW_ASSUME = [
+    "pike servers are started in-process through the exported Reset/Start functions (the call sequence of main.update) on loopback ports; harness upstreams are net/http servers with scripted answers and a request log",
+    "real sockets and real time: schedules are not controlled; oracles are history-based and hold under any timing",
+]
+PROPS["C05"] = {
+    "level": "exploration",
+    "rule": ("Scenario = body (shape random/text/run; size 0,1,2,50, threshold-1/threshold/threshold+1, 2x, 3000, 64 KiB, thorough 300 KB/1 MiB) x content type x status {200,201,203,404,410,500} x upstream encoding {identity,gzip,br,lz4,zst,snz} x "
+             "four client Accept-Encoding values from a pool of 17 plain lists (absent, empty, gzip, br, both orders, deflate, identity, zstd, lz4/snz, x-gzip, compress, pack200-gzip, ...) x extra end-to-end headers (multi-valued, UTF-8, empty, 3 KB) x "
+             "compress levels, min-length {unset,1,100,1kb,1mb}, filter; optional store. Each case drives a key through fetch + concurrent waiter, two hits, (store) a fresh dispatcher restoring from the store, and an uncacheable twin through fetch + two passes. "
+             "Oracle = client-side decode equals the upstream's original bytes, Content-Encoding acceptable, Content-Length = bytes received, status and every end-to-end header line preserved. "
+             "Non-trivial = upstream encoding != identity, or a client list != {gzip}, or size around the threshold or >= 64 KiB, or a single-byte run (ratio > 10). Distinct by the scenario tuple."),
+    "assumptions": _NETW_ASSUME + ["an empty lz4 body is sent as an empty payload (the block format has no encoding of empty input)", "x-gzip is accepted as an alias of gzip"],
+    "jobs": [
+        {"engine": "netw", "test": "TestC05", "quick": {"shards": 16, "checks": 120, "timeout": 600, "shrinktime": "30s"}, "thorough": {"shards": 16, "checks": 4000, "timeout": 3400, "shrinktime": "120s"}},
+    ],
+}
